@@ -168,6 +168,10 @@ func doGetCPUPlans(originCPUMap, availableCPUMap types.CPUMap, availableMemory i
 	cpuPlans := h.getCPUPlans(cpuRequest)
 	if memoryRequest > 0 {
 		memoryCapacity := int(availableMemory / memoryRequest)
+		if memoryCapacity < 0 {
+			// memory is already overcommitted
+			memoryCapacity = 0
+		}
 		if memoryCapacity < len(cpuPlans) {
 			cpuPlans = cpuPlans[:memoryCapacity]
 		}
